@@ -143,7 +143,9 @@ def check_poll_fn(ctx, rule, f, sites):
         if blk in ret_kind:
             ret = ret_kind[blk]
         if blk in rearm_blocks:
-            tags[idx[rearm_blocks[blk]]] = "A"
+            i_ = idx[rearm_blocks[blk]]
+            # replacing a future that is still Pending discards the waker registered with it
+            tags[i_] = "D" if tags[i_] in ("P", "Q") else "A"
         if blk in site_blocks:
             tags[idx[site_blocks[blk]]] = "Q"
         return [(tuple(tags), ret)]
@@ -201,7 +203,8 @@ def check_poll_fn(ctx, rule, f, sites):
             tags = list(tags)
             if ret[0] == "FW":
                 # the returned value is the poll result itself: if it is Pending, that input is pending
-                tags[idx[ret[1]]] = "P"
+                if tags[idx[ret[1]]] != "D":
+                    tags[idx[ret[1]]] = "P"
                 loc = ret[2]
             else:
                 loc = ret[1]
@@ -209,7 +212,7 @@ def check_poll_fn(ctx, rule, f, sites):
             where = b.line_at(loc)
             desc = ", ".join("%s=%s" % (n, tags[idx[n]]) for n in inputs)
             # (i) caused by an input polled in this invocation
-            if not any(t == "P" for t in tags):
+            if not any(t in ("P", "D") for t in tags):
                 key = ("thin-air", loc)
                 if key not in reported:
                     reported.add(key)
@@ -231,7 +234,8 @@ def check_poll_fn(ctx, rule, f, sites):
                 reported.add(key)
                 all_ok = False
                 why = {"R": "last answered Ready (an item) and was not polled again", "Q": "was polled but its result was not examined",
-                       "U": "was not polled in this invocation", "A": "was re-armed but not polled"}[t]
+                       "U": "was not polled in this invocation", "A": "was re-armed but not polled",
+                       "D": "was Pending and was then replaced (re-armed), which drops the future holding the registered waker"}[t]
                 ctx.violated(rule, f, "pending-with-unsettled-input:" + n, where,
                              "`%s` returns Poll::Pending while its input `%s` %s (%s): no waker is registered with `%s`, so a later item / end of that input never wakes the task (the 0.5.0 limit-stream bug class)" % (
                                  f.path, n, why, desc, n))
